@@ -1,6 +1,7 @@
 (* C02 kinds.  0201/0202: Glue/DiffG.v (real doubleWalkDiff / sameFile through the hooks).
    0203: the real DiskWriter driven by the real diff (harness/c05.go) against Model/AbsDest.v,
-   specification oracle RecvG.c02_spec (exact request set, unchanged entries keep their inode). *)
+   specification oracle RecvG.c02_spec (exact request set, unchanged entries keep their inode).
+   0204: below. *)
 From Coq Require Import List NArith Bool.
 From FS Require Import Sx Glue.DiffG Glue.RecvG.
 Import ListNotations.
@@ -12,4 +13,12 @@ Definition run_0203 (input impl : sx) : sx :=
   match dec_rcase input impl with
   | None => v_malformed
   | Some c => verdict (model_obs c) (impl_obs c) (c02_spec c) (SL [])
+  end.
+
+(* 0204: the real walker + differ + DiskWriter run TWICE on the same source (harness/c05.go
+   runResync); specification oracle RecvG.c02_resync_spec = C02 resync_after_transfer_noop. *)
+Definition run_0204 (input impl : sx) : sx :=
+  match dec_rscase input impl with
+  | None => v_malformed
+  | Some c => verdict (rs_model c) (rs_impl c) (c02_resync_spec c) (SL [])
   end.
